@@ -243,7 +243,8 @@ def execute(cases, workers=16):
 
 def check(ctx):
     for c, r, m in execute(gen_cases(ctx)):
-        judge(ctx, c, r, m)
+        with ctx.guard(c):
+            judge(ctx, c, r, m)
     chain_cases(ctx)
 
 
@@ -253,7 +254,8 @@ def replay(ctx, data):
         chain_cases(ctx)
         return
     for c, r, m in execute([case], workers=1):
-        judge(ctx, c, r, m)
+        with ctx.guard(c):
+            judge(ctx, c, r, m)
 
 
 if __name__ == '__main__':
